@@ -699,7 +699,7 @@ def _exec_summary(plan):
 
 def _same(plan, oracle):
     from . import isolate
-    r = isolate.call(_exec_summary, (plan,), timeout=120)
+    r = isolate.with_rundir(_exec_summary, (plan,), timeout=120)
     return r['violation'] is not None and r['violation']['oracle'] == oracle
 
 
@@ -900,7 +900,7 @@ class Adapter(object):
 
     def execute_isolated(self, plan):
         from . import isolate
-        return isolate.call(execute, (plan, None, True, True), timeout=300)
+        return isolate.with_rundir(execute, (plan, None, True, True), timeout=300)
 
     def shrink(self, plan, violation, deadline):
         return shrink(plan, violation, deadline)
